@@ -209,11 +209,15 @@ func (g *gen) complexValues(t *TypeX) []*SVal {
 	return []*SVal{c64Val(t, z, z), c64Val(t, nz, z), c64Val(t, z, nz), c64Val(t, o, z), c64Val(t, z, o), c64Val(t, 0x7fc00001, z), c64Val(t, z, 1)}
 }
 
-var emailPool = []string{"user@a.b.c.d.example.com", "user@mail.eu.example.co.uk", "u@a.b.c.d.e.f.g.h", "a@b.c", "user.name+tag@sub.example.com", "a@b", "user..name@ex.com", "user@exšmple.com", "@b.c", "a@-b.c", strings.Repeat("a", 64) + "@b.co", strings.Repeat("a", 65) + "@b.co", "us\x7fer@example.com"}
-var urlPool = []string{"http://example.com", "mailto:a@b.c", "mailto:", "http://{host}", "https://[::1]/", "ftp://", "HTTP://x.y", "http://ex ample.com", "file:/etc", "xmpp://a", "gopher://a", "http:/x"}
+var emailPool = []string{"user@a.b.c.d.example.com", "user@mail.eu.example.co.uk", "u@a.b.c.d.e.f.g.h", "a@b.c", "user.name+tag@sub.example.com", "a@b", "user..name@ex.com", "user@exšmple.com", "@b.c", "a@-b.c", strings.Repeat("a", 64) + "@b.co", strings.Repeat("a", 65) + "@b.co", "us\x7fer@example.com",
+	// valid members with local parts of 30 / 31 / 42 / 64 bytes and long domains (stack-buffer thresholds of helpers)
+	strings.Repeat("a", 30) + "@example.com", strings.Repeat("b", 31) + "@example.com", "first.middle.last+" + strings.Repeat("t", 24) + "@example.com", strings.Repeat("ab.", 21) + "c@example.com",
+	"u@" + strings.Repeat("long-label.", 12) + "example.com"}
+var urlPool = []string{"http://example.com", "mailto:a@b.c", "mailto:", "http://{host}", "https://[::1]/", "ftp://", "HTTP://x.y", "http://ex ample.com", "file:/etc", "xmpp://a", "gopher://a", "http:/x",
+	"https://example.com/" + strings.Repeat("path/", 12) + "index.html?q=" + strings.Repeat("v", 40), "mailto:" + strings.Repeat("x", 70) + "@example.com"}
 var uuidPool = []string{"550e8400-e29b-41d4-a716-446655440000", "FFFFFFFF-FFFF-FFFF-FFFF-FFFFFFFFFFFF", "F47AC10B-58CC-4372-A567-0E02B2C3D479", "f47ac10b-58cc-4372-A567-0e02b2c3d479", "00000000-0000-0000-0000-000000000000", "550e8400-e29b-61d4-a716-446655440000", "550e8400-e29b-41d4-c716-446655440000", "550e8400-e29b-41d4-a716-44665544000\x15", "550e8400e29b41d4a716446655440000"}
-var alphaPool = []string{"", "abc", "ABCxyz", "abc1", "ab c", "é", "Ren\xe9", "\xc3", "z{"}
-var numericPool = []string{"", "0", "0123456789", "12a", "-1", "1.0", "١٢", "１", "12\xff"}
+var alphaPool = []string{"", "abc", "ABCxyz", "abc1", "ab c", "é", "Ren\xe9", "\xc3", "z{", strings.Repeat("abcXYZ", 12), strings.Repeat("q", 33)}
+var numericPool = []string{"", "0", "0123456789", "12a", "-1", "1.0", "١٢", "１", "12\xff", strings.Repeat("0123456789", 7)}
 var ipPool = []string{"192.168.0.1", "::1", "::ffff:1.2.3.4", "1.2.3", "abc", "1.2.3.4 ", "2001:db8::1", "0.0.0.0", "256.1.1.1", "fe80::1%eth0", "", "01.2.3.4"}
 
 func runeString(n int, unit string) string { return strings.Repeat(unit, n) }
@@ -442,7 +446,8 @@ func manyItems(n int) []string {
 }
 
 var enumStrPools = [][]string{manyItems(9), manyItems(12), manyItems(30), {"New  York", "Boston"}, {"a\tb", "a b"}, {"x   y  z"}, {"a", "b", "c"}, {"red", "green", "blue"}, {"A", "a"}, {"x"}, {"hello world", "x y"}, {"café", "日本"}, {"a", "a", "b"}, {"1", "2"}, {"pending", "active", "Active", "done", "x", "y", "z", "w"},
-	{"N/A", "\"\"", "none", "null", "nil"}, {"--", "++", "**", "//", "\\"}, {"ab", "cd", "ef", "gh", "\"", "ij"}, {"tab\there", "plain", "other", "fourth", "fifth"}}
+	{"N/A", "\"\"", "none", "null", "nil"}, {"--", "++", "**", "//", "\\"}, {"ab", "cd", "ef", "gh", "\"", "ij"}, {"tab\there", "plain", "other", "fourth", "fifth"},
+	{"", "mr", "ms"}, {"draft", "published", ""}, {"x", "", "y"}}
 
 func (g *gen) enumMarker(t *TypeX) Marker {
 	u := t.Underlying()
@@ -834,6 +839,14 @@ func (g *gen) famShapes(id string, count, maxFields int) []*Scenario {
 			sc.Decls = []*Decl{d}
 			sc.Values["W"] = g.structValues(d, 6)
 		}
+		switch s % 7 {
+		case 0:
+			sc.Layout = "split" // (only effective with two ungrouped declarations: the placement pairs A / B)
+		case 3:
+			sc.Layout = "crlf"
+		case 5:
+			sc.Layout = "header"
+		}
 		out = append(out, sc)
 	}
 	return out
@@ -1069,6 +1082,14 @@ func (g *gen) famRandom(id string, count, maxFields int) []*Scenario {
 			sc.Decls = append(sc.Decls, d)
 			sc.Values[d.Name] = g.structValues(d, 12)
 		}
+		switch s % 6 {
+		case 1:
+			sc.Layout = "split"
+		case 3:
+			sc.Layout = "crlf"
+		case 5:
+			sc.Layout = "header"
+		}
 		out = append(out, sc)
 	}
 	return out
@@ -1210,6 +1231,17 @@ func (g *gen) famC08(id string, count int) []*Scenario {
 			}
 			sc.Decls = append(sc.Decls, d)
 			sc.Values[d.Name] = g.structValues(d, 3)
+		}
+		switch {
+		case s%3 == 0:
+		case s == 7 || s == 22:
+			sc.Layout = "cgo"
+		case s%5 == 1:
+			sc.Layout = "split"
+		case s%5 == 2:
+			sc.Layout = "crlf"
+		case s%5 == 4:
+			sc.Layout = "header"
 		}
 		if s%3 == 0 {
 			// history: the package used to carry rules on eight more fields per struct and was generated then;
@@ -1705,4 +1737,363 @@ func (g *gen) famBig(id string) []*Scenario {
 	sc.Decls = []*Decl{d}
 	sc.Values["Big"] = vals
 	return []*Scenario{sc}
+}
+
+// famImported (C02 / C07 / C09): fields whose types come from OTHER packages — two imported packages that share their
+// package name (`types`) and their type names (ID, Tags, Ref) but not the underlying kinds, plus a third package with
+// distinct names. Anything the generator remembers per "pkg.Type" text (zero values, type classes) must not mix them up.
+func (g *gen) famImported(id string) []*Scenario {
+	sc := newScenario(id + "imp")
+	g.sc = sc
+	sc.Imports = []string{`t1 "scen/§PKG§/a/types"`, `t2 "scen/§PKG§/b/types"`, `"scen/§PKG§/units"`}
+	sc.Uses = []string{"var _ t1.ID", "var _ t2.ID", "var _ units.Meters"}
+	sc.Deps = map[string]string{
+		"a/types/types.go": "package types\n\ntype ID int\n\ntype Tags []string\n\ntype Ref *int\n\ntype Name string\n",
+		"b/types/types.go": "package types\n\ntype ID string\n\ntype Tags map[string]int\n\ntype Ref func()\n\ntype Name []byte\n",
+		"units/units.go":   "package units\n\ntype Meters float64\n\ntype Code uint8\n\ntype Label string\n",
+	}
+	nt := func(src string, under *TypeX) *TypeX { return &TypeX{Kind: "named", Src: src, Under: under} }
+	intT, f64 := basicT("int", "Int"), basicT("float64", "Float64")
+	req := Marker{ID: "required"}
+	mk := func(id, e string) Marker { return Marker{ID: id, Expr: e, HasExpr: true} }
+	// every struct uses both packages: first the int-backed then the string-backed `types.ID` (and the other way round in Rev)
+	fieldsOf := func(rev bool) []*Field {
+		fs := []*Field{
+			{Names: []string{"A"}, Type: nt("t1.ID", intT), Markers: []Marker{req, mk("gt", "0")}},
+			{Names: []string{"B"}, Type: nt("t2.ID", stringT), Markers: []Marker{req, mk("enum", "ab, cd")}},
+			{Names: []string{"C"}, Type: nt("t1.Tags", collTypes[0]), Markers: []Marker{req, mk("minitems", "1")}},
+			{Names: []string{"D"}, Type: nt("t2.Tags", collTypes[5]), Markers: []Marker{req, mk("maxitems", "2")}},
+			{Names: []string{"E"}, Type: nt("t1.Ref", refTypes[0]), Markers: []Marker{req}},
+			{Names: []string{"F"}, Type: nt("t2.Ref", refTypes[5]), Markers: []Marker{req}},
+			{Names: []string{"G"}, Type: nt("units.Meters", f64), Markers: []Marker{req, mk("lte", "100.5")}},
+			{Names: []string{"H"}, Type: nt("units.Code", basicT("uint8", "Uint8")), Markers: []Marker{req, mk("enum", "1, 2,3")}},
+			{Names: []string{"I"}, Type: nt("t2.Name", collTypes[2]), Markers: []Marker{req, mk("maxitems", "3")}},
+		}
+		if rev {
+			for i, j := 0, len(fs)-1; i < j; i, j = i+1, j-1 {
+				fs[i], fs[j] = fs[j], fs[i]
+			}
+		}
+		return fs
+	}
+	d1 := &Decl{Name: "Imp", Fields: fieldsOf(false)}
+	d2 := &Decl{Name: "Rev", Fields: fieldsOf(true)}
+	d3 := &Decl{Name: "InNest", Fields: []*Field{{Names: []string{"In"}, Nested: fieldsOf(false)[:4]}}}
+	sc.Decls = []*Decl{d1, d2, d3}
+	for _, d := range sc.Decls {
+		sc.Values[d.Name] = g.structValues(d, 6)
+	}
+	return []*Scenario{sc}
+}
+
+// famGrouped (C02 / C09): one `type ( … )` declaration whose doc comment carries a marker, with several specs that each add
+// a DIFFERENT struct-level marker of their own (required first, then a string rule, then a numeric rule): every spec must keep
+// exactly its own markers plus the group's.
+func (g *gen) famGrouped(id string) []*Scenario {
+	var out []*Scenario
+	intT := basicT("int", "Int")
+	for v := 0; v < 3; v++ {
+		sc := newScenario(fmt.Sprintf("%sgrp%d", id, v))
+		g.sc = sc
+		gdoc := [][]Marker{{{ID: "maxlength", Expr: "50", HasExpr: true}}, {{ID: "lte", Expr: "100", HasExpr: true}, {ID: "maxlength", Expr: "60", HasExpr: true}}, {{ID: "maxitems", Expr: "9", HasExpr: true}}}[v]
+		own := [][]Marker{{{ID: "required"}}, {{ID: "email"}}, {{ID: "gt", Expr: "0", HasExpr: true}}, {{ID: "minlength", Expr: "2", HasExpr: true}, {ID: "required"}}}
+		fieldSets := [][]*TypeX{
+			{stringT, intT, collTypes[0], refTypes[0], boolT, basicT("float64", "Float64"), collTypes[5], basicT("uint8", "Uint8")},
+			{stringT, stringT, intT},
+			{intT, basicT("int64", "Int64"), stringT, basicT("float32", "Float32")},
+			{stringT, collTypes[1], intT},
+		}
+		for di := range own {
+			d := &Decl{Name: fmt.Sprintf("G%d", di), Group: "g", GroupDoc: gdoc, Markers: own[(di+v)%len(own)]}
+			for fi, t := range fieldSets[di] {
+				d.Fields = append(d.Fields, &Field{Names: []string{fmt.Sprintf("F%d", fi)}, Type: t})
+			}
+			sc.Decls = append(sc.Decls, d)
+			sc.Values[d.Name] = g.structValues(d, 8)
+		}
+		out = append(out, sc)
+	}
+	return out
+}
+
+// famCollCombo (C04): collection fields carrying SEVERAL rules at once — required with minitems / maxitems, both item rules,
+// all three; on the field, and with `required` at struct level — every rule must be judged on its own (nil is length 0).
+func (g *gen) famCollCombo(id string) []*Scenario {
+	var out []*Scenario
+	var cur *Scenario
+	n := 0
+	mk := func(id, e string) Marker { return Marker{ID: id, Expr: e, HasExpr: true} }
+	req := Marker{ID: "required"}
+	combos := [][]Marker{
+		{req, mk("minitems", "1")}, {mk("minitems", "2"), req}, {req, mk("maxitems", "2")}, {mk("minitems", "1"), mk("maxitems", "3")},
+		{req, mk("minitems", "2"), mk("maxitems", "2")}, {mk("maxitems", "0"), req},
+	}
+	for _, t0 := range collTypes {
+		for ci, ms := range combos {
+			for variant := 0; variant < 3; variant++ {
+				if cur == nil || len(cur.Decls) >= 12 {
+					if cur != nil {
+						out = append(out, cur)
+					}
+					cur = newScenario(fmt.Sprintf("%s%03d", id, len(out)))
+					g.sc = cur
+				}
+				t := t0
+				if variant == 1 {
+					t = g.namedOver(t0)
+				}
+				n++
+				d := &Decl{Name: fmt.Sprintf("Q%d", n)}
+				f := &Field{Names: []string{"Items"}, Type: t, Markers: ms}
+				if variant == 2 {
+					// `required` at struct level, the item rules on the field
+					var rest []Marker
+					hasReq := false
+					for _, m := range ms {
+						if m.ID == "required" {
+							hasReq = true
+						} else {
+							rest = append(rest, m)
+						}
+					}
+					if !hasReq {
+						continue
+					}
+					d.Markers = []Marker{req}
+					f.Markers = rest
+					d.Fields = []*Field{f, {Names: []string{"Other"}, Type: stringT}}
+				} else if ci%2 == 1 {
+					d.Fields = []*Field{{Names: []string{"In"}, Nested: []*Field{f}}}
+				} else {
+					d.Fields = []*Field{f}
+				}
+				cur.Decls = append(cur.Decls, d)
+				cur.Values[d.Name] = g.structValues(d, 2)
+			}
+		}
+	}
+	if cur != nil {
+		out = append(out, cur)
+	}
+	return out
+}
+
+// famEnumCombo (C05): enum together with required (field level in both orders, required at struct level), on string, int,
+// float64 and named types, with lists that do NOT contain the zero value: the zero value violates BOTH rules.
+func (g *gen) famEnumCombo(id string) []*Scenario {
+	var out []*Scenario
+	var cur *Scenario
+	n := 0
+	req := Marker{ID: "required"}
+	types := []*TypeX{stringT, basicT("int", "Int"), basicT("float64", "Float64"), basicT("uint8", "Uint8")}
+	lists := map[string]string{"String": "pending,active,done", "Int": "1,2,3", "Float64": "0.5,1.5", "Uint8": "7,9"}
+	for _, t0 := range types {
+		for variant := 0; variant < 5; variant++ {
+			if cur == nil || len(cur.Decls) >= 10 {
+				if cur != nil {
+					out = append(out, cur)
+				}
+				cur = newScenario(fmt.Sprintf("%s%03d", id, len(out)))
+				g.sc = cur
+			}
+			t := t0
+			if variant == 4 {
+				t = g.namedOver(t0)
+			}
+			en := Marker{ID: "enum", Expr: lists[t0.Basic], HasExpr: true}
+			n++
+			d := &Decl{Name: fmt.Sprintf("E%d", n)}
+			f := &Field{Names: []string{"Rank"}, Type: t}
+			switch variant {
+			case 0, 4:
+				f.Markers = []Marker{en, req}
+				d.Fields = []*Field{f}
+			case 1:
+				f.Markers = []Marker{req, en}
+				d.Fields = []*Field{f}
+			case 2:
+				d.Markers = []Marker{req}
+				f.Markers = []Marker{en}
+				d.Fields = []*Field{f, {Names: []string{"Note"}, Type: stringT}}
+			default:
+				f.Markers = []Marker{en, req}
+				d.Fields = []*Field{{Names: []string{"Inner"}, Nested: []*Field{f}}}
+			}
+			cur.Decls = append(cur.Decls, d)
+			cur.Values[d.Name] = g.structValues(d, 2)
+		}
+	}
+	if cur != nil {
+		out = append(out, cur)
+	}
+	return out
+}
+
+// famNames (C06 / C07): legal but unusual FIELD names — a leading or trailing underscore, lower-case (unexported) names,
+// non-ASCII identifiers, names equal to the identifiers the generated code uses itself (t, err, errs, ctx), very long names.
+func (g *gen) famNames(id string, rules []string) []*Scenario {
+	var out []*Scenario
+	names := []string{"_id", "_", "X_", "x", "ünï", "Ünï", "t", "err", "errs", "ctx", "ok", "Err", "ErrNil", "Validate_", "A" + strings.Repeat("b", 70), "_0"}
+	for ri, r := range rules {
+		sc := newScenario(fmt.Sprintf("%sn%02d", id, ri))
+		g.sc = sc
+		d := &Decl{Name: "Named"}
+		inner := &Field{Names: []string{"in"}}
+		for i, nme := range names {
+			if nme == "_" {
+				continue // the blank identifier cannot be selected (`t._`): nothing can be validated there
+			}
+			m := g.marker(r, stringT)
+			f := &Field{Names: []string{nme}, Type: stringT, Markers: []Marker{m}}
+			if i%4 == 3 {
+				f.Markers = append(f.Markers, Marker{ID: "required"})
+			}
+			if i%5 == 4 {
+				inner.Nested = append(inner.Nested, f)
+			} else {
+				d.Fields = append(d.Fields, f)
+			}
+		}
+		if len(inner.Nested) > 0 {
+			d.Fields = append(d.Fields, inner)
+		}
+		sc.Decls = []*Decl{d}
+		sc.Values["Named"] = g.structValues(d, 4)
+		out = append(out, sc)
+	}
+	return out
+}
+
+// corpusRepeat (C17): the same rule at struct level AND on a field of slice / map / func / pointer type (redundant but legal:
+// the rule is written and reported twice), with nil and empty values
+func (g *gen) corpusRepeat(id string) []*Scenario {
+	sc := newScenario(id + "rep")
+	g.sc = sc
+	req := Marker{ID: "required"}
+	d := &Decl{Name: "Rep", Markers: []Marker{req}, Fields: []*Field{
+		{Names: []string{"Tags"}, Type: collTypes[0], Markers: []Marker{req}},
+		{Names: []string{"Attrs"}, Type: collTypes[5], Markers: []Marker{req}},
+		{Names: []string{"Hook"}, Type: refTypes[5], Markers: []Marker{req}},
+		{Names: []string{"Ptr"}, Type: refTypes[0], Markers: []Marker{req}},
+		{Names: []string{"Any"}, Type: refTypes[2], Markers: []Marker{req}},
+		{Names: []string{"Name"}, Type: stringT, Markers: []Marker{req}},
+	}}
+	mi := Marker{ID: "minitems", Expr: "1", HasExpr: true}
+	d2 := &Decl{Name: "RepItems", Markers: []Marker{mi}, Fields: []*Field{
+		{Names: []string{"Tags"}, Type: collTypes[0], Markers: []Marker{mi}},
+		{Names: []string{"Attrs"}, Type: collTypes[5], Markers: []Marker{mi}},
+		{Names: []string{"Bytes"}, Type: collTypes[2], Markers: []Marker{mi}},
+		{Names: []string{"Plain"}, Type: basicT("int", "Int")},
+	}}
+	sc.Decls = []*Decl{d, d2}
+	sc.Values["Rep"] = g.structValues(d, 6)
+	sc.Values["RepItems"] = g.structValues(d2, 6)
+	return []*Scenario{sc}
+}
+
+
+// canonFields: the declaration with every unusually spelled marker parameter replaced by its plain decimal spelling
+// (what the Spec is asked about; the generator sees the spelling as written)
+func canonFields(fs []*Field) ([]*Field, bool) {
+	var out []*Field
+	any := false
+	for _, f := range fs {
+		nf := *f
+		nf.Markers = nil
+		for _, m := range f.Markers {
+			if m.Canon != "" {
+				m.Expr, m.Canon = m.Canon, ""
+				any = true
+			}
+			nf.Markers = append(nf.Markers, m)
+		}
+		if f.Nested != nil {
+			var sub bool
+			nf.Nested, sub = canonFields(f.Nested)
+			any = any || sub
+		}
+		out = append(out, &nf)
+	}
+	return out, any
+}
+
+func canonDecl(d *Decl) (*Decl, bool) {
+	nd := *d
+	any := false
+	nd.Markers = nil
+	for _, m := range d.Markers {
+		if m.Canon != "" {
+			m.Expr, m.Canon = m.Canon, ""
+			any = true
+		}
+		nd.Markers = append(nd.Markers, m)
+	}
+	var sub bool
+	nd.Fields, sub = canonFields(d.Fields)
+	return &nd, any || sub
+}
+
+// famSpelled (C01 / C03 / C04 / C09): the SPELLING of a numeric marker parameter — blanks and tabs around it, an explicit
+// plus sign, hexadecimal / binary / octal literals, a leading zero, digit separators, exponent and decimal-point forms.
+// The generator pastes the text into the comparison, where Go reads it as the same number; every spelling must
+// therefore behave exactly like the plain decimal one (the Spec is asked about the decimal spelling).
+func (g *gen) famSpelled(id string, rules []string, types []*TypeX) []*Scenario {
+	var out []*Scenario
+	var cur *Scenario
+	n := 0
+	type sp struct{ lit, canon string }
+	ints := []sp{{" 5", "5"}, {"5 ", "5"}, {"\t5", "5"}, {"+5", "5"}, {"0x5", "5"}, {"0X0A", "10"}, {"0b101", "5"}, {"0o5", "5"}, {"05", "5"}, {"010", "8"}, {"1_0", "10"}, {"1e1", "10"}, {"2E0", "2"}, {"5.0", "5"}, {"00", "0"}}
+	floats := []sp{{" 0.5", "0.5"}, {"5e-1", "0.5"}, {".5", "0.5"}, {"5.", "5"}, {"+2.5", "2.5"}, {"1_0.5", "10.5"}, {"0x1p-1", "0.5"}, {"1E2", "100"}, {"-.5", "-0.5"}}
+	for _, t := range types {
+		for _, r := range rules {
+			ok := false
+			for _, x := range rulesFor(t) {
+				if x == r {
+					ok = true
+				}
+			}
+			if !ok {
+				continue
+			}
+			list := ints
+			if strings.HasPrefix(t.Underlying().Basic, "Float") {
+				list = append(append([]sp{}, ints...), floats...)
+			}
+			for si, spv := range list {
+				if cur == nil || len(cur.Decls) >= 14 {
+					if cur != nil {
+						out = append(out, cur)
+					}
+					cur = newScenario(fmt.Sprintf("%s%03d", id, len(out)))
+					g.sc = cur
+				}
+				n++
+				d := &Decl{Name: fmt.Sprintf("P%d", n)}
+				m := Marker{ID: r, Expr: spv.lit, HasExpr: true, Canon: spv.canon}
+				f := &Field{Names: []string{"F"}, Type: t, Markers: []Marker{m}}
+				switch si % 4 {
+				case 1:
+					d.Fields = []*Field{{Names: []string{"In"}, Nested: []*Field{f}}}
+				case 2: // as the SECOND marker of the field, and with a plain sibling field
+					f.Markers = []Marker{{ID: "required"}, m}
+					d.Fields = []*Field{f, {Names: []string{"G"}, Type: t, Markers: []Marker{{ID: r, Expr: spv.canon, HasExpr: true}}}}
+				case 3: // at struct level over two names
+					d.Markers = []Marker{m}
+					f.Markers = nil
+					f.Names = []string{"F", "H"}
+					d.Fields = []*Field{f}
+				default:
+					d.Fields = []*Field{f}
+				}
+				cur.Decls = append(cur.Decls, d)
+				// candidate values are built around the DECIMAL value
+				cd, _ := canonDecl(d)
+				cur.Values[d.Name] = g.structValues(cd, 0)
+			}
+		}
+	}
+	if cur != nil {
+		out = append(out, cur)
+	}
+	return out
 }
